@@ -606,6 +606,14 @@ class DilatedConnectionProtocol(Protocol):
     def disconnect(self):
         self.transport.loseConnection()
 
+    # called by Inbound, to throttle inbound data when a subchannel's
+    # application has asked for a pause
+    def pauseProducing(self):
+        self.transport.pauseProducing()
+
+    def resumeProducing(self):
+        self.transport.resumeProducing()
+
     # select() called by Connector
 
     # called by Manager
